@@ -261,7 +261,7 @@ class Expander:
                     return False
         return True
 
-    def _callee_ok(self, fdef):
+    def _callee_ok(self, fdef, allow_yield=False):
         if fdef.decorator_list:
             return False
         a = fdef.args
@@ -276,6 +276,8 @@ class Expander:
         n = 0
         for x in _walk_no_nested(body):
             n += isinstance(x, ast.stmt)
+            if isinstance(x, (ast.Yield, ast.YieldFrom)) and allow_yield:
+                continue
             if isinstance(x, (ast.Yield, ast.YieldFrom, ast.Await, ast.Global, ast.Nonlocal)):
                 return False
             if isinstance(x, ast.Name) and x.id in ('super', 'locals', 'vars', '__class__'):
@@ -300,6 +302,11 @@ class Expander:
             elif isinstance(s, (ast.For, ast.While)) and not in_unstructured and self._loop_convertible(s):
                 if not self._returns_structured(s.orelse, in_unstructured):
                     return False
+            elif isinstance(s, ast.Try) and not in_unstructured and not s.finalbody and s is stmts[-1]:
+                # a try statement that ends its block: `return e` inside it becomes `r = e` and control leaves the try
+                for blk in [s.body, s.orelse] + [h.body for h in s.handlers]:
+                    if not self._returns_structured(blk, in_unstructured):
+                        return False
             elif isinstance(s, (ast.For, ast.While, ast.Try, ast.With)):
                 for sub in ('body', 'orelse', 'finalbody'):
                     if not self._returns_structured(getattr(s, sub, []) or [], True):
@@ -385,18 +392,20 @@ class Expander:
             if cand not in taken:
                 return cand
 
-    def build_inline(self, caller_fdef, call, tdef, recv, mode, keep_names=()):
+    def build_inline(self, caller_fdef, call, tdef, recv, mode, keep_names=(), allow_yield=False):
         """-> (stmts, result_expr) ; mode: 'value' (result needed), 'stmt' (result unused), 'tail' (return call)."""
         body = copy.deepcopy(_strip_doc(tdef.body))
         decos = tdef.decorator_list
-        if any(True for d in decos if not (isinstance(d, ast.Name) and d.id == 'classmethod')):
+        if any(True for d in decos if not (isinstance(d, ast.Name) and d.id in ('classmethod', 'staticmethod'))):
             return None
+        is_static = any(isinstance(d, ast.Name) and d.id == 'staticmethod' for d in decos)
         if not self._callee_ok(ast.FunctionDef(name=tdef.name, args=tdef.args, body=tdef.body, decorator_list=[],
-                                               returns=None, type_comment=None, lineno=tdef.lineno, col_offset=0)):
+                                               returns=None, type_comment=None, lineno=tdef.lineno, col_offset=0),
+                               allow_yield=allow_yield):
             return None
         cparams = _params(tdef)
         args = list(call.args)
-        if recv is not None and recv != 'explicit':
+        if recv is not None and recv != 'explicit' and not is_static:
             args = [recv] + args
         extra = []
         if len(args) > len(cparams):
@@ -478,7 +487,9 @@ class Expander:
         if mode == 'tail':
             stmts = pre + body
             if self._can_fall_through(body):
-                stmts.append(ast.Return(value=ast.Constant(None), lineno=call.lineno, col_offset=0))
+                synthetic = ast.Return(value=ast.Constant(None), lineno=call.lineno, col_offset=0)
+                synthetic._synthetic = True
+                stmts.append(synthetic)
             res = None
         else:
             rname = self._fresh('%s_result' % tdef.name.lstrip('_'), caller_names)
@@ -557,6 +568,21 @@ class Expander:
                     new = ast.While(test=s.test, body=body, orelse=o)
                 out.append(ast.copy_location(new, s))
                 return out, orr
+            if isinstance(s, ast.Try) and not s.finalbody and self._contains_return([s]) and i == len(stmts) - 1 and not cont:
+                b, br = self._convert_returns(list(s.body), rname, [])
+                o, orr = self._convert_returns(list(s.orelse), rname, []) if s.orelse else ([], br)
+                if b is None or o is None:
+                    return None, False
+                hs, hall = [], True
+                for h in s.handlers:
+                    hb, hr = self._convert_returns(list(h.body), rname, [])
+                    if hb is None:
+                        return None, False
+                    ends = bool(hb) and isinstance(hb[-1], ast.Raise)
+                    hall = hall and (hr or ends)
+                    hs.append(ast.copy_location(ast.ExceptHandler(type=h.type, name=h.name, body=hb or [ast.Pass()]), h))
+                out.append(ast.copy_location(ast.Try(body=b or [ast.Pass()], handlers=hs, orelse=o, finalbody=[]), s))
+                return out, (orr if s.orelse else br) and hall
             if self._contains_return([s]):
                 return None, False
             out.append(s)
@@ -595,6 +621,8 @@ class Expander:
             return bool(last.orelse) and self._always(last.body, rname) and self._always(last.orelse, rname)
         if isinstance(last, (ast.For, ast.While)) and last.orelse:
             return self._always(last.orelse, rname)
+        if isinstance(last, ast.Try) and not last.finalbody:
+            return self._always(last.orelse or last.body, rname) and all(self._always(h.body, rname) for h in last.handlers)
         return False
 
     def _drop_result_stores(self, stmts, rname):
@@ -651,6 +679,9 @@ class Expander:
         call, mode = None, None
         if isinstance(s, ast.Expr) and isinstance(s.value, ast.Call):
             call, mode = s.value, 'stmt'
+        elif isinstance(s, ast.Expr) and isinstance(s.value, ast.YieldFrom) and isinstance(s.value.value, ast.Call):
+            # `yield from self._helper(...)` with a generator helper that has no return: its body, in place
+            call, mode = s.value.value, 'yieldfrom'
         elif isinstance(s, ast.Return) and isinstance(s.value, ast.Call):
             call, mode = s.value, 'tail'
         elif isinstance(s, (ast.Assign, ast.AugAssign, ast.AnnAssign)) and isinstance(s.value, ast.Call):
@@ -668,7 +699,17 @@ class Expander:
             # names that the statement overwrites anyway need not be kept apart from the helper's locals of the same name
             keep = {x.id for x in ast.walk(s.targets[0]) if isinstance(x, ast.Name)}
             keep -= {x.id for a in list(call.args) + [k.value for k in call.keywords] for x in ast.walk(a) if isinstance(x, ast.Name)}
-        built = self.build_inline(fdef, call, tdef, recv, mode, keep)
+        if mode == 'yieldfrom':
+            if self._contains_return(tdef.body) or not any(isinstance(x, (ast.Yield, ast.YieldFrom)) for x in _walk_no_nested(tdef.body)):
+                return None
+            built = self.build_inline(fdef, call, tdef, recv, 'tail', keep, allow_yield=True)
+            if built is not None:
+                # 'tail' appends `return None` when the body can fall through: not wanted here
+                stmts0 = [x for x in built[0] if not (isinstance(x, ast.Return) and getattr(x, '_synthetic', False))]
+                built = (stmts0, None)
+                mode = 'stmt'
+        else:
+            built = self.build_inline(fdef, call, tdef, recv, mode, keep)
         if built is None:
             self.stats['skipped'].append('%s.%s -> %s' % (mname, fdef.name, tdef.name))
             return None
@@ -831,9 +872,11 @@ class Expander:
         for s in stmts:
             if isinstance(s, ast.Assign) and isinstance(s.targets[0], ast.Name) and s.targets[0].id == rname:
                 s.targets = [copy.deepcopy(target)]
-            elif isinstance(s, (ast.If, ast.For, ast.While)):
+            elif isinstance(s, (ast.If, ast.For, ast.While, ast.Try)):
                 self._retarget(s.body, rname, target)
                 self._retarget(s.orelse, rname, target)
+                for h in getattr(s, 'handlers', []) or []:
+                    self._retarget(h.body, rname, target)
 
     def _inline_expr_helpers(self, mname, cname, fdef, s):
         """replace calls of helpers whose body is a single `return <expr>` by that expression, anywhere in the
@@ -1180,6 +1223,200 @@ class Expander:
             for fdef in [n for n in ast.walk(m.tree) if isinstance(n, ast.FunctionDef)]:
                 fdef.body, _ = rewrite(fdef.body, _params(fdef)[:1])
 
+    # ------------------------------------------------------------------ local aliases of attribute chains
+    def _store_closure(self):
+        """method/function name -> set of attribute names it may store (directly or through the calls it makes, by name)."""
+        direct, calls = {}, {}
+        for m in self.modules.values():
+            for fdef in [n for n in ast.walk(m.tree) if isinstance(n, ast.FunctionDef)]:
+                d = direct.setdefault(fdef.name, set())
+                c = calls.setdefault(fdef.name, set())
+                for x in _walk_no_nested(fdef.body):
+                    if isinstance(x, ast.Attribute) and isinstance(x.ctx, (ast.Store, ast.Del)):
+                        d.add(x.attr)
+                    elif isinstance(x, ast.Call):
+                        if isinstance(x.func, ast.Attribute):
+                            if x.func.attr == '__init__' and isinstance(x.func.value, ast.Name):
+                                c.add(x.func.value.id + '.__init__')
+                            else:
+                                c.add(x.func.attr)
+                        elif isinstance(x.func, ast.Name):
+                            c.add(x.func.id)
+                            if x.func.id == 'setattr':
+                                d.add('*')
+        # calling a class runs its own __init__ (and what that one calls); a bare `.__init__` of an unknown receiver
+        # stands for all of them
+        every_init = set()
+        for (mn, cn), cdef in self.classes.items():
+            key = cn + '.__init__'
+            d = direct.setdefault(key, set())
+            c = calls.setdefault(key, set())
+            for k in [(mn, cn)] + list(self._ancestors((mn, cn))):
+                for st in self.classes.get(k, ast.ClassDef(body=[])).body if k in self.classes else []:
+                    if isinstance(st, ast.FunctionDef) and st.name == '__init__':
+                        for x in _walk_no_nested(st.body):
+                            if isinstance(x, ast.Attribute) and isinstance(x.ctx, (ast.Store, ast.Del)):
+                                d.add(x.attr)
+                            elif isinstance(x, ast.Call):
+                                if isinstance(x.func, ast.Attribute):
+                                    if x.func.attr == '__init__' and isinstance(x.func.value, ast.Name):
+                                        c.add(x.func.value.id + '.__init__')
+                                    else:
+                                        c.add(x.func.attr)
+                                elif isinstance(x.func, ast.Name):
+                                    c.add(x.func.id)
+            calls.setdefault(cn, set()).add(key)
+            every_init.add(key)
+        direct['__init__'] = set()
+        calls['__init__'] = set(every_init)
+        changed = True
+        while changed:
+            changed = False
+            for name, cs in calls.items():
+                cur = direct.setdefault(name, set())
+                for k in cs:
+                    extra = direct.get(k, set()) - cur
+                    if extra:
+                        cur |= extra
+                        changed = True
+        return direct
+
+    def propagate_attr_aliases(self):
+        """`x = self.a.b` (x bound once, never through a nested scope) followed by uses of x with nothing in between that
+        can rebind .a / .b: the uses are written as self.a.b again, the alias disappears."""
+        from .cfg import CFG
+        stores = self._store_closure()
+        for m in self.modules.values():
+            for fdef in [n for n in ast.walk(m.tree) if isinstance(n, ast.FunctionDef)]:
+                if any(isinstance(x, (ast.Global, ast.Nonlocal)) for x in _walk_no_nested(fdef.body)):
+                    continue
+                bound = {}
+                for x in _walk_no_nested(fdef.body):
+                    if isinstance(x, ast.Name) and isinstance(x.ctx, (ast.Store, ast.Del)):
+                        bound[x.id] = bound.get(x.id, 0) + 1
+                params = set(_params(fdef)) | {a.arg for a in fdef.args.kwonlyargs}
+                nested_reads = {x.id for sc in ast.walk(fdef) if sc is not fdef and isinstance(sc, (ast.FunctionDef, ast.Lambda))
+                                for x in ast.walk(sc) if isinstance(x, ast.Name)}
+                cands = []
+                for st in _walk_no_nested(fdef.body):
+                    if isinstance(st, ast.Assign) and len(st.targets) == 1 and isinstance(st.targets[0], ast.Name) \
+                            and self._pure_expr(st.value):
+                        nm = st.targets[0].id
+                        attrs = [x.attr for x in ast.walk(st.value) if isinstance(x, ast.Attribute)]
+                        names = {x.id for x in ast.walk(st.value) if isinstance(x, ast.Name)}
+                        if not attrs:
+                            continue
+                        if bound.get(nm) == 1 and nm not in params and nm not in nested_reads and nm not in names \
+                                and all(bound.get(r, 0) == 0 for r in names) and sum(1 for _ in ast.walk(st.value)) <= 40:
+                            cands.append((st, nm, attrs))
+                if not cands:
+                    continue
+                try:
+                    cfg = CFG(fdef)
+                except Exception:
+                    continue
+                for st, nm, attrs in cands:
+                    dnodes = [n for n in cfg.nodes if n.ast is st]
+                    if len(dnodes) != 1:
+                        continue
+                    dn = dnodes[0]
+                    uses = [n for n in cfg.nodes if n.ast is not None and n is not dn and any(
+                        isinstance(x, ast.Name) and x.id == nm and isinstance(x.ctx, ast.Load) for x in self._own(n))]
+                    if not uses:
+                        continue
+                    fwd = cfg.reach([t for (t, lab) in cfg.succ[dn]])
+                    # every use must be reached only through the definition
+                    if any(u not in fwd for u in uses) or not all(cfg.dominates(dn, u) for u in uses):
+                        continue
+                    # nodes lying on a path from the definition to a use
+                    back = set()
+                    stack = list(uses)
+                    while stack:
+                        n = stack.pop()
+                        if n in back:
+                            continue
+                        back.add(n)
+                        for (p, lab) in cfg.pred[n]:
+                            if p is not dn:
+                                stack.append(p)
+                    between = fwd & back
+                    killed = False
+                    for n in between:
+                        for x in self._own(n):
+                            if isinstance(x, ast.Attribute) and isinstance(x.ctx, (ast.Store, ast.Del)) and x.attr in attrs:
+                                killed = True
+                            elif isinstance(x, ast.Call):
+                                cn = x.func.attr if isinstance(x.func, ast.Attribute) else x.func.id if isinstance(x.func, ast.Name) else None
+                                if cn is not None:
+                                    st_attrs = stores.get(cn, set())
+                                    if '*' in st_attrs or (st_attrs & set(attrs)):
+                                        killed = True
+                        if killed:
+                            break
+                    if killed:
+                        continue
+                    chain = st.value
+
+                    class Rep(ast.NodeTransformer):
+                        def visit_Name(self, node):
+                            if node.id == nm and isinstance(node.ctx, ast.Load):
+                                return ast.copy_location(copy.deepcopy(chain), node)
+                            return node
+
+                        def visit_FunctionDef(self, node):
+                            return node
+
+                        def visit_Lambda(self, node):
+                            return node
+                    fdef.body = [Rep().visit(b) for b in fdef.body]
+                    self._remove_stmt(fdef, st)
+                    self.stats['aliases'] = self.stats.get('aliases', 0) + 1
+
+    def _pure_expr(self, e):
+        """an expression without calls, subscripts or other effects: constants, names, attribute chains and operators."""
+        if isinstance(e, (ast.Constant, ast.Name)):
+            return True
+        if isinstance(e, ast.Attribute):
+            return self._pure_chain(e)
+        if isinstance(e, ast.BinOp):
+            return self._pure_expr(e.left) and self._pure_expr(e.right) and isinstance(e.op, (ast.Add, ast.Sub, ast.Mult))
+        if isinstance(e, ast.UnaryOp):
+            return self._pure_expr(e.operand)
+        if isinstance(e, ast.BoolOp):
+            return all(self._pure_expr(v) for v in e.values)
+        if isinstance(e, ast.Compare):
+            return self._pure_expr(e.left) and all(self._pure_expr(c) for c in e.comparators) and all(
+                isinstance(o, (ast.Is, ast.IsNot, ast.Eq, ast.NotEq, ast.Lt, ast.LtE, ast.Gt, ast.GtE)) for o in e.ops)
+        if isinstance(e, ast.IfExp):
+            return self._pure_expr(e.test) and self._pure_expr(e.body) and self._pure_expr(e.orelse)
+        return False
+
+    @staticmethod
+    def _own(n):
+        from .cfg import own_exprs
+        try:
+            return list(own_exprs(n))
+        except Exception:
+            return list(ast.walk(n.ast)) if n.ast is not None else []
+
+    def _remove_stmt(self, fdef, st):
+        def strip(stmts):
+            out = []
+            for s in stmts:
+                if s is st:
+                    continue
+                for sub in ('body', 'orelse', 'finalbody'):
+                    if isinstance(getattr(s, sub, None), list) and not isinstance(s, (ast.FunctionDef, ast.ClassDef)):
+                        nb = strip(getattr(s, sub))
+                        if sub == 'body' and not nb:
+                            nb = [ast.copy_location(ast.Pass(), s)]
+                        setattr(s, sub, nb)
+                for h in getattr(s, 'handlers', []) or []:
+                    h.body = strip(h.body) or [ast.copy_location(ast.Pass(), h)]
+                out.append(s)
+            return out
+        fdef.body = strip(fdef.body) or [ast.copy_location(ast.Pass(), fdef)]
+
     def substitute_local_literals(self):
         for m in self.modules.values():
             for fdef in [n for n in ast.walk(m.tree) if isinstance(n, ast.FunctionDef)]:
@@ -1238,6 +1475,11 @@ class Expander:
                             if isinstance(s2, ast.FunctionDef):
                                 changed |= self.expand_function(mname, st.name, s2)
             if not changed:
+                break
+        for _ in range(4):
+            before = self.stats.get('aliases', 0)
+            self.propagate_attr_aliases()
+            if self.stats.get('aliases', 0) == before:
                 break
         self.substitute_local_literals()
         for m in self.modules.values():
